@@ -39,6 +39,9 @@ pub struct KvBody {
     pub tiny: bool,
     /// sealed memtables prepared before the threads start (write-stall bodies)
     pub presealed: usize,
+    /// L0 runs prepared before the threads start (flushed one by one through the real worker tick; the Compact
+    /// messages those flushes queue stay in the channel for the worker thread)
+    pub pre_l0: usize,
     /// journal rotation on the first flush
     pub jrot: bool,
     pub initial: Vec<(&'static str, &'static str)>,
@@ -205,6 +208,16 @@ impl Body for KvBody {
             ks.insert(*k, *v).expect("prep insert");
             initial.insert((*k).to_string(), (*v).to_string());
         }
+        for i in 0..self.pre_l0 {
+            ks.insert("p", format!("l{i}")).expect("prep insert");
+            initial.insert("p".to_string(), format!("l{i}"));
+            ks.rotate_memtable().expect("prep rotate");
+            // run exactly the queued Flush message on this (uncontrolled) thread
+            let pend = db.verif_pending();
+            if let Some(idx) = pend.iter().position(|m| m.contains("Flush")) {
+                db.verif_step(idx).expect("prep flush");
+            }
+        }
         for i in 0..self.presealed {
             ks.insert("p", format!("{i}")).expect("prep insert");
             initial.insert("p".to_string(), format!("{i}"));
@@ -286,12 +299,13 @@ pub fn bodies(tier: &str) -> Vec<BodySpec> {
     let q = tier == "quick";
     let b = |body: KvBody, bound: usize, secs: f64| BodySpec { body: Arc::new(body), bound, secs };
     let mut v = vec![
-        b(KvBody { name: "2writers+reader", workers: 0, tiny: false, presealed: 0, jrot: false, initial: vec![], threads: vec![vec![Ins("a", "1")], vec![Ins("a", "2")], vec![Get("a"), Get("a")]] }, if q { 2 } else { 3 }, if q { 7.0 } else { 200.0 }),
-        b(KvBody { name: "ins-rem vs readers", workers: 0, tiny: false, presealed: 0, jrot: false, initial: vec![("a", "0")], threads: vec![vec![Ins("a", "1"), Rem("a")], vec![Get("a"), Contains("a")], vec![Ins("b", "2"), SizeOf("a")]] }, 2, if q { 7.0 } else { 200.0 }),
-        b(KvBody { name: "tiny-memtable+worker", workers: 1, tiny: true, presealed: 0, jrot: false, initial: vec![], threads: vec![vec![Ins("a", "1"), Ins("b", "1")], vec![Ins("a", "2"), Get("b")], vec![Get("a"), Scan]] }, if q { 1 } else { 2 }, if q { 3.0 } else { 300.0 }),
-        b(KvBody { name: "write-stall(4 sealed)+worker", workers: 1, tiny: false, presealed: 4, jrot: false, initial: vec![], threads: vec![vec![Ins("a", "9"), Get("a")], vec![Get("p")]] }, if q { 1 } else { 2 }, if q { 5.0 } else { 200.0 }),
+        b(KvBody { name: "2writers+reader", workers: 0, tiny: false, presealed: 0, pre_l0: 0, jrot: false, initial: vec![], threads: vec![vec![Ins("a", "1")], vec![Ins("a", "2")], vec![Get("a"), Get("a")]] }, if q { 2 } else { 3 }, if q { 7.0 } else { 200.0 }),
+        b(KvBody { name: "ins-rem vs readers", workers: 0, tiny: false, presealed: 0, pre_l0: 0, jrot: false, initial: vec![("a", "0")], threads: vec![vec![Ins("a", "1"), Rem("a")], vec![Get("a"), Contains("a")], vec![Ins("b", "2"), SizeOf("a")]] }, 2, if q { 7.0 } else { 200.0 }),
+        b(KvBody { name: "tiny-memtable+worker", workers: 1, tiny: true, presealed: 0, pre_l0: 0, jrot: false, initial: vec![], threads: vec![vec![Ins("a", "1"), Ins("b", "1")], vec![Ins("a", "2"), Get("b")], vec![Get("a"), Scan]] }, if q { 1 } else { 2 }, if q { 3.0 } else { 300.0 }),
+        b(KvBody { name: "write-stall(4 sealed)+worker", workers: 1, tiny: false, presealed: 4, pre_l0: 0, jrot: false, initial: vec![], threads: vec![vec![Ins("a", "9"), Get("a")], vec![Get("p")]] }, if q { 1 } else { 2 }, if q { 5.0 } else { 200.0 }),
     ];
-    v.push(b(KvBody { name: "tiny-memtable+worker [focus:write-path]", workers: 1, tiny: true, presealed: 0, jrot: false, initial: vec![], threads: vec![vec![Ins("a", "1"), Ins("b", "1")], vec![Ins("a", "2"), Get("b")], vec![Get("a"), Scan]] }, 2, if q { 6.0 } else { 300.0 }));
+    v.push(b(KvBody { name: "write-halt(30 L0 runs)+worker must compact [focus:write-path]", workers: 1, tiny: false, presealed: 0, pre_l0: 30, jrot: false, initial: vec![], threads: vec![vec![Ins("a", "9"), Get("a")]] }, if q { 1 } else { 2 }, if q { 5.0 } else { 120.0 }));
+    v.push(b(KvBody { name: "tiny-memtable+worker [focus:write-path]", workers: 1, tiny: true, presealed: 0, pre_l0: 0, jrot: false, initial: vec![], threads: vec![vec![Ins("a", "1"), Ins("b", "1")], vec![Ins("a", "2"), Get("b")], vec![Get("a"), Scan]] }, 2, if q { 6.0 } else { 300.0 }));
     {
         use crate::props::c06::{Act, Finals, Kind, VisBody};
         v.push(BodySpec {
@@ -301,8 +315,8 @@ pub fn bodies(tier: &str) -> Vec<BodySpec> {
         });
     }
     if !q {
-        v.push(b(KvBody { name: "journal-rotation+2workers", workers: 2, tiny: true, presealed: 0, jrot: true, initial: vec![("a", "0")], threads: vec![vec![Ins("a", "1"), Ins("b", "1")], vec![Rem("a"), Get("b")], vec![Get("a"), Scan]] }, 2, 300.0));
-        v.push(b(KvBody { name: "3writers-same-key", workers: 0, tiny: false, presealed: 0, jrot: false, initial: vec![], threads: vec![vec![Ins("a", "1"), Get("a")], vec![Ins("a", "2"), Get("a")], vec![Ins("a", "3"), Get("a")]] }, 3, 300.0));
+        v.push(b(KvBody { name: "journal-rotation+2workers", workers: 2, tiny: true, presealed: 0, pre_l0: 0, jrot: true, initial: vec![("a", "0")], threads: vec![vec![Ins("a", "1"), Ins("b", "1")], vec![Rem("a"), Get("b")], vec![Get("a"), Scan]] }, 2, 300.0));
+        v.push(b(KvBody { name: "3writers-same-key", workers: 0, tiny: false, presealed: 0, pre_l0: 0, jrot: false, initial: vec![], threads: vec![vec![Ins("a", "1"), Get("a")], vec![Ins("a", "2"), Get("a")], vec![Ins("a", "3"), Get("a")]] }, 3, 300.0));
     }
     v
 }
